@@ -88,6 +88,9 @@ class ScriptEnv:
                 row[a] = (v.bool(f"{tag}term{t}_{a}"), v.bool(f"{tag}trunc{t}_{a}"), v.real(f"{tag}rew{t}_{a}"), present)
             if absent_ok:
                 v.assume(disj(*[row[a][3] for a in agents]), "at least one agent is present in the returned dicts")
+                if self.flags:
+                    for a in agents:     # an agent that left stays away until the next reset (PettingZoo semantics)
+                        v.assume(disj(neg(row[a][3]), self.flags[-1][a][3]), "an agent that left an episode stays away until the reset")
             self.flags.append(row)
 
     def observation_space(self, agent):
@@ -104,6 +107,7 @@ class ScriptEnv:
 
     def reset(self, seed=None, options=None):
         self.resets += 1
+        self.agents = list(self.possible_agents)
         k = self.resets
         return ({a: obs_of(self.space, self.reset_label(k) + self.possible_agents.index(a)) for a in self.possible_agents},
                 {a: {"episode": k} for a in self.possible_agents})
@@ -118,6 +122,8 @@ class ScriptEnv:
             te, tr, r, present = self.flags[t][a]
             here = present is True or bool(present)        # decided here (forks when symbolic)
             self.present_log[t][a] = here
+            if not here and a in self.agents:
+                self.agents = [x for x in self.agents if x != a]      # env.agents lists the LIVE agents only
             if here:
                 obs[a], rew[a], term[a], trunc[a], info[a] = obs_of(self.space, self.step_label(t, a)), r, te, tr, {"t": t}
         return obs, rew, term, trunc, info
@@ -210,7 +216,9 @@ class WorkerLoop(Case):
                           site="_async_worker/reset-condition"))
             for k, a in enumerate(agents):
                 here = present[a]
-                res.append(Ob(f"step{t}/{a}/env-got-its-own-action", bool(np.array_equal(np.asarray(env.actions[t][a]).reshape(-1), np.asarray(acts[t][k]).reshape(-1)))))
+                if here or a in env.actions[t]:
+                    res.append(Ob(f"step{t}/{a}/env-got-its-own-action", a in env.actions[t] and bool(np.array_equal(np.asarray(env.actions[t][a]).reshape(-1), np.asarray(acts[t][k]).reshape(-1))),
+                                  site="_async_worker/action-routing"))
                 if here:
                     res.append(Ob(f"step{t}/{a}/reward-termination-truncation-are-env-i's-own",
                                   conj(a in rew and eq(rew[a], env.flags[t][a][2]), a in term and eq(term[a], env.flags[t][a][0]), a in trunc and eq(trunc[a], env.flags[t][a][1])),
@@ -326,7 +334,7 @@ class AutoResetWrapper(Case):
 
 def cases(tier):
     cs = [WorkerLoop("vector", 2, 2), WorkerLoop("image", 2, 1, E=3, index=2), WorkerLoop("dict", 2, 1), WorkerLoop("tuple", 1, 2, index=0),
-          WorkerLoop("vector", 2, 1, absent=True), WorkerLoop("vector", 2, 1, continuous=True),
+          WorkerLoop("vector", 2, 1, absent=True), WorkerLoop("vector", 2, 1, continuous=True), WorkerLoop("vector", 2, 2, absent=True),
           ParentStep(2, 2), ParentStep(3, 2, copy=False), ParentStep(1, 3),
           AutoResetWrapper(1), AutoResetWrapper(2)]
     if tier == "thorough":
